@@ -41,6 +41,7 @@ const TOKENS: &[&str] = &[
     "\x1b[?7l",
     "\x1bc",
     "\x1b[L",
+    "\x1b[M",
     "\x1b[S",
     "\u{e9}\u{6f22}",
     // distinct content in every row, scrolling one or two rows off
@@ -188,13 +189,20 @@ fn explore(cfg: &Cfg, tokens: &[usize], kf_listed: bool) -> Stat {
     st
 }
 
-fn strings(k: usize) -> Vec<Vec<usize>> {
+/// tokens left out of the quick tier (near-duplicates of others as far as call
+/// boundaries are concerned: more text, more SGR forms, the charset trio, an 8-bit CSI)
+const QUICK_SKIP: &[&str] = &["bc", "\x1b[1;31m", "\x1b[38;5;200m", "q", "\x0e", "\x1b(0", "\u{9b}3C", "\u{e9}\u{6f22}"];
+
+fn strings(k: usize, quick: bool) -> Vec<Vec<usize>> {
     let mut out: Vec<Vec<usize>> = vec![];
     let mut level: Vec<Vec<usize>> = vec![vec![]];
     for _ in 0..k {
         let mut next = vec![];
         for s in &level {
             for t in 0..TOKENS.len() {
+                if quick && QUICK_SKIP.contains(&TOKENS[t]) {
+                    continue;
+                }
                 let mut x = s.clone();
                 x.push(t);
                 next.push(x);
@@ -213,7 +221,7 @@ fn configs(tier: Tier) -> Vec<Cfg> {
             Cfg::new(2, 2, None),
             Cfg::new(2, 3, Some(0)),
             Cfg::new(1, 2, Some(2)),
-            Cfg::new(3, 2, None),
+            Cfg::new(2, 3, None),
         ],
         Tier::Thorough => crate::ops::cfgs(&[(2, 2), (3, 2), (1, 2), (2, 3)], &[None, Some(0), Some(1), Some(2)]),
     }
@@ -223,8 +231,8 @@ pub fn run(ctx: &Ctx) -> Report {
     let mut rep = Report::new();
     crate::engine::install_panic_hook();
     let k = ctx.tier.pick(3, 4);
-    let strs3 = strings(3);
-    let strs4 = if k == 4 { strings(4) } else { vec![] };
+    let strs3 = strings(3, ctx.tier == Tier::Quick);
+    let strs4 = if k == 4 { strings(4, false) } else { vec![] };
     let kf_listed = ctx.known.listed("KF-C12-a", "C12");
     let mut kf_total = 0u64;
     let mut kf_witness: Option<String> = None;
@@ -289,7 +297,7 @@ pub fn run(ctx: &Ctx) -> Report {
     }
     rep.samples.push(json!({"tokens": TOKENS.iter().map(|t| esc(t)).collect::<Vec<_>>() }));
     rep.samples.push(json!(esc(&strs3[strs3.len() / 2].iter().map(|&t| TOKENS[t]).collect::<String>())));
-    rep.rule = "all token strings of <=k tokens over a 33-token alphabet of complete texts/sequences; for each string ALL 2^(n-1) ways of cutting it into feed_str calls are covered by the cut-DAG (node = position x implementation fingerprint after a call boundary; soundness: the future of a call boundary depends only on the state), plus feed() per char; every final node is compared (visible screen, cursor, dump(), and lines() when unlimited) with the single-call result; non-trivial = distinct final nodes compared".into();
+    rep.rule = "all token strings of <=k tokens over a 35-token alphabet (27 of them in the quick tier) of complete texts/sequences; for each string ALL 2^(n-1) ways of cutting it into feed_str calls are covered by the cut-DAG (node = position x implementation fingerprint after a call boundary; soundness: the future of a call boundary depends only on the state), plus feed() per char; every final node is compared (visible screen, cursor, dump(), and lines() when unlimited) with the single-call result; non-trivial = distinct final nodes compared".into();
     rep.assumptions = vec!["cut-pattern count is the number of paths through the DAG (reported as a float)".into()];
     rep
 }
